@@ -1471,6 +1471,10 @@ macro_rules! ws_api_cases {
 trait Fast: Grp {
     /// log2 of the cofactor that verify_helper_vartime multiplies the equation by (0 when it tests equality of group elements)
     const COF_LOG2: u32;
+    /// which optional entry points the curve has: constants, so that registering the cases runs no library code
+    const HAS_HELPER: bool = false;
+    const HAS_M128: bool = false;
+    const HAS_M64MU: bool = false;
     fn mamg(self, u: &Self::S, v: &Self::S) -> Self;
     fn helper(self, _r: &Self, _s: &Self::S, _k: &Self::S) -> Option<bool> { None }
     fn m128(self, _u: u128, _v: &Self::S) -> Option<Self> { None }
@@ -1487,8 +1491,8 @@ macro_rules! impl_fast {
         }
     };
 }
-macro_rules! fast_helper { () => { fn helper(self, r: &Self, s: &Self::S, k: &Self::S) -> Option<bool> { Some(self.verify_helper_vartime(r, s, k)) } }; }
-macro_rules! fast_m128 { () => { fn m128(self, u: u128, v: &Self::S) -> Option<Self> { Some(self.mul128_add_mulgen_vartime(u, v)) } }; }
+macro_rules! fast_helper { () => { const HAS_HELPER: bool = true; fn helper(self, r: &Self, s: &Self::S, k: &Self::S) -> Option<bool> { Some(self.verify_helper_vartime(r, s, k)) } }; }
+macro_rules! fast_m128 { () => { const HAS_M128: bool = true; fn m128(self, u: u128, v: &Self::S) -> Option<Self> { Some(self.mul128_add_mulgen_vartime(u, v)) } }; }
 impl_fast!(ed25519, 3, { fast_helper!(); });
 impl_fast!(ed448, 2, { fast_helper!(); });
 impl_fast!(p256, 0, { fast_helper!(); });
@@ -1497,7 +1501,7 @@ impl_fast!(ristretto255, 0, { fast_helper!(); });
 impl_fast!(decaf448, 0, { fast_helper!(); });
 impl_fast!(jq255e, 0, { fast_m128!(); });
 impl_fast!(jq255s, 0, { fast_m128!(); });
-impl_fast!(gls254, 0, { fn m64mu(self, u0: u64, u1: u64, v: &Self::S) -> Option<Self> { Some(self.mul64mu_add_mulgen_vartime(u0, u1, v)) } });
+impl_fast!(gls254, 0, { const HAS_M64MU: bool = true; fn m64mu(self, u0: u64, u1: u64, v: &Self::S) -> Option<Self> { Some(self.mul64mu_add_mulgen_vartime(u0, u1, v)) } });
 
 /// integers whose halves / low words are all-zero or all-one: what the negation and carry code of the split multipliers sees
 fn frac_parts() -> Vec<BigInt> {
@@ -1614,14 +1618,13 @@ fn reg_fast<G: Fast>(v: &mut Vec<Case>) {
     let c = G::NAME;
     v.push(Case { id: format!("{}_mul_add_mulgen_vartime", c), describe: "C10: P.mul_add_mulgen_vartime(u, v) == P*u + mulgen(v) (plain constant-time operations), result a valid point. Input: point recipe | u | v",
         ops: vec![pt_op::<G>(), frac_op::<G>(), sc_op::<G>()], run: Box::new(|i: &[u8]| c_mul_add_mulgen_vartime::<G>(i)) });
-    if G::base().helper(&G::base(), &G::sc_u64(1), &G::sc_u64(0)).is_some() {
+    if G::HAS_HELPER {
         v.push(Case { id: format!("{}_verify_helper_vartime", c), describe: "C10: A.verify_helper_vartime(R, s, k) == ([cofactor](s*B - R - k*A) is the neutral) for R = s*B - k*A + delta*B (+ torsion where cofactored); k includes fractions c0/c1 whose parts have all-zero / all-one words. Input: A recipe | k | s | delta | torsion selector",
             ops: vec![pt_op::<G>(), frac_op::<G>(), sc_op::<G>(), Op::Custom { len: Some(1), specials: || (0u8..4).map(|x| vec![x]).collect(), random: |r: &mut Rng| vec![if r.below(2) == 0 { 0 } else { r.below(4) as u8 }] },
                       Op::Custom { len: Some(1), specials: || (0u8..12).map(|x| vec![x]).collect(), random: |r: &mut Rng| vec![r.below(256) as u8] }],
             run: Box::new(|i: &[u8]| c_verify_helper_vartime::<G>(i)) });
     }
-    let z = G::sc_u64(0);
-    if G::base().m128(1, &z).is_some() || G::base().m64mu(1, 0, &z).is_some() {
+    if G::HAS_M128 || G::HAS_M64MU {
         v.push(Case { id: format!("{}_mul128_add_mulgen_vartime", c), describe: "C10: the 128-bit multiplier fast path (mul128_add_mulgen_vartime, resp. mul64mu_add_mulgen_vartime with u = u0 + u1*2^64 split in two halves) == the plain operations. Input: point recipe | u (16 bytes LE) | v",
             ops: vec![pt_op::<G>(), u128_op(), sc_op::<G>()], run: Box::new(|i: &[u8]| c_mul128_add_mulgen_vartime::<G>(i)) });
     }
